@@ -710,3 +710,37 @@ GRAMMAR['simple'] = dict(
     rej='false', rewrites=[], entry=_TERM_FACTS)
 RTOP_ORDER = ['parser', 'hyphen', 'garbage', 'simple']
 GRAMMAR_ORDER = GRAMMAR_ORDER + RTOP_ORDER
+
+
+# ---- range (one alternative) and bound_sets (the alternatives of a text)
+_E = "SemverParseError<&'s str>"
+GRAMMAR['range'] = dict(
+    src='rng', O='Vec<BoundSet>',
+    acc=("if empty_alt(i@) { rest@ == skip_ws(i@) && o@.len() == 1 && shape_ok_c(Some(o@[0]), any_c()) && bs_small(o@[0]) } else { exists|outs: Seq<Option<BoundSet>>| #[trigger] sep_all::<&'s str, Option<BoundSet>, &'s str, %s, _, _>(simple, space1::<%s>, i, outs, rest) && all_elem_ok(outs) && conj_post(outs, o@) }" % (_E, _E)),
+    rej='false',
+    rewrites=[(re.compile(r"\|_\| \{\s*let star = BoundSet::at_least\(Predicate::Including\(\(0, 0, 0\)\.into\(\)\)\);\s*intersect_all\(&\[star\]\)\s*\}"),
+               "|_x: &'s str| -> (r: Vec<BoundSet>) ensures r@.len() == 1, shape_ok_c(Some(r@[0]), any_c()), bs_small(r@[0]) { empty_range_desugar() }",
+               'R5b the closure for the empty range replaced by a call to empty_range_desugar (the same text, lifted)'),
+              ("|bs: Vec<Option<BoundSet>>| intersect_all(&bs)", "|bs: Vec<Option<BoundSet>>| -> (r: Vec<BoundSet>) requires all_elem_ok(bs@) ensures conj_post(bs@, r@) { intersect_all(&bs) }", 'closure contract')],
+    entry=_TERM_FACTS + """proof {
+        assert forall|a: Seq<char>| 0 <= #[trigger] ws_span(a) <= a.len() by { lemma_span_le(a, |c: char| ws_char(c)); }
+        assert forall|a: &'s str, o: Option<BoundSet>, b: &'s str| #[trigger] Parser::<&'s str, Option<BoundSet>, SemverParseError<&'s str>>::accepts(&simple, a, o, b) implies elem_ok(o) by { }
+        assert forall|i: &'s str, outs: Seq<Option<BoundSet>>, rest: &'s str| #[trigger] sep_all::<&'s str, Option<BoundSet>, &'s str, SemverParseError<&'s str>, _, _>(simple, space1::<SemverParseError<&'s str>>, i, outs, rest) implies all_elem_ok(outs) by {
+            lemma_sep_all_elems::<SemverParseError<&'s str>, _, _>(simple, space1::<SemverParseError<&'s str>>, i, outs, rest);
+        }
+    }
+    """)
+GRAMMAR['bound_sets'] = dict(
+    src='rng', O='Vec<BoundSet>',
+    acc=("exists|alts: Seq<Vec<BoundSet>>| #[trigger] sep_all::<&'s str, Vec<BoundSet>, (), %s, _, _>(range, logical_or, i, alts, rest) && o@ == flat_sets(alts)" % _E),
+    rej='false',
+    rewrites=[("|sets: Vec<Vec<BoundSet>>| sets.into_iter().flatten().collect()", "|sets: Vec<Vec<BoundSet>>| -> (r: Vec<BoundSet>) ensures r@ == flat_sets(sets@) { verif_std_flatten(sets) }", 'R6 `sets.into_iter().flatten().collect()` routed through a stub with std\'s contract (body = the original expression)')],
+    entry='proof { assert forall|a: Seq<char>| (#[trigger] g_or(a)) is Some implies g_or(a).unwrap().len() < a.len() by { lemma_or_consumes(a); } }\n    ')
+RTOP2_ORDER = ['range', 'bound_sets']
+GRAMMAR_ORDER = GRAMMAR_ORDER + RTOP2_ORDER
+STD_FLATTEN = """// std: Vec<Vec<T>>::into_iter().flatten().collect::<Vec<T>>() is the concatenation, in order (R6)
+#[verifier::external_body]
+pub fn verif_std_flatten(sets: Vec<Vec<BoundSet>>) -> (r: Vec<BoundSet>)
+    ensures r@ == flat_sets(sets@),
+{ sets.into_iter().flatten().collect() }
+"""
